@@ -208,3 +208,35 @@ Fixpoint page_seq_ok_b (right : bool) (idx : Z) (ps : list pinfo) : bool :=
 Definition counters_ok (ps : list page) : Prop :=
   forall i p, nth_error ps i = Some p ->
     pg_counter p = N.of_nat (S i) /\ pg_pages p = N.of_nat (length ps).
+
+(* ------------------------------------------------------------------ Part 3: the values that meet at a boundary
+   (CSS Fragmentation 3, 3.1 / CSS Page 3 "allowed page breaks": a break between two
+   sibling boxes takes the break-after values of the first box and of every box that ENDS
+   with it -- its last child, that one's last child, ... -- and the break-before values of
+   the second box and of every box that STARTS it -- its first child, ...).  Stated on the
+   flow tree, independently of the linearisation of Layout/Paginate.v. *)
+
+(* break-after of the boxes that end with f, innermost first *)
+Fixpoint closing_ba (f : flow) : list brk :=
+  match f with
+  | Blk _ _ _ _ _ ba _ _ kids =>
+      (fix go (ks : list flow) : list brk :=
+         match ks with
+         | [] => []
+         | [k] => closing_ba k
+         | _ :: r => go r
+         end) kids ++ [ba]
+  | _ => []
+  end.
+
+(* break-before of the boxes that start with f, outermost first *)
+Fixpoint opening_bb (f : flow) : list brk :=
+  match f with
+  | Blk _ _ _ _ bb _ _ _ kids =>
+      bb :: match kids with k :: _ => opening_bb k | [] => [] end
+  | _ => []
+  end.
+
+(* the break value of the boundary between two sibling boxes *)
+Definition sibling_break (before after : flow) : brk :=
+  block_level_page_break (closing_ba before ++ opening_bb after).
